@@ -1,14 +1,17 @@
 """C09 -- returned (omega, eta) satisfy the diffraction condition; no solution is missed"""
 from .common import *
 
-SOLVERS = ['find_omega_general', 'find_omega_quart', 'find_omega', 'find_omega_wedge']
+PROVED = ['find_omega_general', 'find_omega']
+BOUNDED = ['find_omega_quart', 'find_omega_wedge']
 
 
 def units(tier):
     us = []
     for m in ('tools', 'laue'):
-        for f in SOLVERS:
+        for f in PROVED:
             us.append(FuncUnit(m, f))
+        for f in PROVED + BOUNDED:
+            us.append(RuntimeContractUnit(m, f, 400, 20000))
     return us
 
 
